@@ -103,7 +103,7 @@ EQ_CODE = ('def __eq__(self, other):\n        return type(self) is type(other)\n
            '    def __hash__(self):\n        return 7')
 
 ATTRS = ['m', 'fm', 'fmm', 'dm', 'wm', 'fe', 'plain', '<self>', 'fh', 'feh', 'dcm', 'wcm']
-ATTR_W = [5, 2, 2, 1, 1, 1, 1, 2, 2, 2, 1, 1]
+ATTR_W = [5, 2, 2, 1, 1, 1, 1, 2, 2, 2, 2, 2]
 OWNER_BOUND = ('dcm', 'wcm')      # classmethods under a wrapper: what they are bound to is the owner
 INST_CLASSES = ['K', 'K', 'Sub', 'KH']
 NINST = len(INST_CLASSES)
@@ -486,7 +486,7 @@ class C18Hist(object):
 
         # swarm: every run has a focus (attribute, instance) most accesses go to, and its own
         # operation mix, so that access -> change -> access-again patterns are common
-        focus_attr = ATTRS[ch.weighted([6, 2, 2, 1, 1, 1, 1, 2, 2, 2, 1, 1], 'focus-attr')]
+        focus_attr = ATTRS[ch.weighted([6, 2, 2, 1, 1, 1, 1, 2, 2, 2, 2, 2], 'focus-attr')]
         focus_inst = ch.draw(NINST, 'focus-inst')
         # retrieve bind call redecorate drop_slot drop_instance gc new_instance attach detach copy_instance
         op_weights = [[4, 3, 3, 3, 1, 2, 1, 1, 1, 1, 1], [4, 1, 2, 6, 0, 1, 0, 0, 1, 0, 0],
@@ -494,6 +494,9 @@ class C18Hist(object):
 
         def draw_target():
             if env.insts[focus_inst] is not None and ch.chance(2, 3, 'use-focus'):
+                if ch.chance(1, 4, 'focus-through-class'):
+                    # the focus attribute looked up on a class: through K, a subclass, ...
+                    return ('class', ['K', 'Sub', 'KH'][ch.draw(3, 'owner')], focus_attr)
                 via = ['getattr', 'getattr', 'get:K', 'get:own'][ch.draw(4, 'via')]
                 return ('inst', focus_inst, focus_attr, via)
             k = ch.weighted([5, 2, 1], 'target-kind')
